@@ -419,6 +419,10 @@ impl C16 {
                     stats.probe("kinds_without_async_writer_skipped", 1);
                     return None;
                 }
+                if !faio::async_writer_supports(&made.model) {
+                    stats.probe("models_the_async_writer_cannot_be_configured_for_skipped", 1);
+                    return None;
+                }
                 let sink = SimAsyncWrite::new(p.aio.clone(), counters.clone());
                 let s2 = sink.clone();
                 let r = crate::kernel::fresh_thread(|| aexec::run(&p.aio, counters.clone(), || faio::awrite(file.kind, &made.model, s2, p.workers)));
